@@ -32,6 +32,14 @@ def key_columns(rng, tier):
             if rng.random() < 0.5:
                 keys = order(keys)
         cols.append((kind, keys))
+        if kind != 'text' and rng.random() < 0.5:
+            # the same keys with cells of another kind in between (a header text, blanks, a stray text): they are skipped, positions still count from the top
+            holed = []
+            for k in keys:
+                while rng.random() < 0.35:
+                    holed.append(rng.choice(['id', None, 'q', None]))
+                holed.append(k)
+            cols.append((kind, holed))
     return cols
 
 
@@ -40,7 +48,9 @@ def lookups_for(rng, kind, keys):
     if kind == 'text':
         out.update([rng.choice(keys), rng.choice(keys).upper(), rng.choice(keys).lower(), 'zzz', '0', 'c'])
     else:
-        k = rng.choice(keys)
+        nums = [x for x in keys if type(x) in (int, float)]
+        k = rng.choice(nums)
+        keys = nums
         out.update([k, float(k) if float(k) == int(float(k)) else k, int(min(keys)) - 1, int(max(keys)) + 1, max(keys) + 100,
                     k + 0.5, k - 0.5, rng.randint(-6, 31)])
         out = {int(v) if (isinstance(v, float) and v == int(v) and rng.random() < 0.5) else v for v in out}
@@ -61,9 +71,21 @@ def run(tier, seed):
         raise RuntimeError('driver did not build:\n' + chk.build.log[-2000:])
     inst = realcode.runtime_instance()
     cases_m, cases_x, cases_v = [], [], []
+    E = type(inst).EmptyCell
     for kind, keys in key_columns(rng, tier):
+        keys = [E() if k is None else k for k in keys]
         rows = [[k] for k in keys]
         for lv in lookups_for(rng, kind, keys):
+            if kind != 'text' and any(type(k) not in (int, float) for k in keys):
+                # exact match in a column with cells of other kinds in between: the position is the position in the range
+                pos = [i + 1 for i, k in enumerate(keys) if type(k) in (int, float) and k == lv]
+                for fn, got, want in (('MATCH(…,0)', core.outcome(inst._match, lv, rows, 0), pos[0] if pos else None),
+                                      ('XMATCH(…,0,1)', core.outcome(inst._xmatch, lv, rows, 0, 1), pos[0] if pos else None),
+                                      ('XMATCH(…,0,-1)', core.outcome(inst._xmatch, lv, rows, 0, -1), pos[-1] if pos else None)):
+                    chk.count('oracle:position-in-range')
+                    if want is not None and got != core.enc(want):
+                        chk.violation({'why': 'the position returned is not the position in the lookup range (cells of another kind are skipped, not removed)', 'fn': fn,
+                                       'lookup': repr(lv), 'keys': repr(keys), 'impl': got, 'want': want, 'stream': 'position-in-range'})
             for mt in (0, 1, -1):
                 cases_m.append(('lk match %s %s I%d' % (core.enc(lv), core.enc(rows), mt), core.outcome(inst._match, lv, rows, mt),
                                 {'fn': 'MATCH', 'lookup': repr(lv), 'keys': repr(keys), 'match_type': mt}))
@@ -150,6 +172,11 @@ def end_to_end(chk, tier):
             ('=VLOOKUP(%s,A1:C%d,2,TRUE)' % (between, h), lambda: inst._vlookup(between, area, 2, True)),
             ('=INDEX(A1:C%d,%d,%d)' % (h, r, c), lambda: area[r - 1][c - 1]),
             ('=INDEX(B1:B%d,%d)' % (h, r), lambda: vals[r - 1]),
+            ('=INDEX(A1:C%d,%d,%d,1)' % (h, r, c), lambda: area[r - 1][c - 1]),          # four-argument form: the third argument is still the column
+            ('=INDEX(A1:C%d,%d,%d,1)' % (h, 1, 4), lambda: '#REF!'),
+            ('=XMATCH(%s,A1:A%d,-1,1)' % (between, h), lambda: inst._xmatch(between, krows, -1, 1)),      # four-argument form: the third argument is the match mode
+            ('=XMATCH(%s,A1:A%d,1,1)' % (between, h), lambda: inst._xmatch(between, krows, 1, 1)),
+            ('=XMATCH(%s,A1:A%d,-1,-1)' % (between, h), lambda: inst._xmatch(between, krows, -1, -1)),
             ('=INDEX(A1:C%d,%d,%d)' % (h, h + 1, 1), lambda: '#REF!'),
             ('=INDEX(B1:B%d,MATCH(%d,A1:A%d,0))' % (h, kk, h), lambda: vals[keys.index(k)]),
             ('=ADDRESS(%d,%d)' % (r, col_no), lambda: inst._address(r, col_no)),
